@@ -48,6 +48,9 @@ def replay(path):
     with open(path) as f:
         rec = json.load(f)
     prop = rec['property']
+    if any(k in rec.get('msg', '') for k in ('did not finish within', 'differ between two worker processes', 'in another worker process', 'a worker process died')):
+        # these records describe a whole run (hang, crash, dependence on hidden state), not one case: replay = run the check
+        return run_property(prop, 'quick', int(os.environ.get('VERIF_SEED', '0') or 0))
     drv = load_driver(prop)
     fam = None
     for f in drv.families('thorough'):
